@@ -13,7 +13,7 @@ From BB Require Import BN Brute SpaceFacts TrapFacts PercolateFacts AttractorFac
   Strict PetriNet Control Meta FilterFacts PetriNetFacts TrappistFacts DiagramStruct DiagramSem1 DiagramCache
   DiagramDepth DiagramComplete Termination ControlFacts MetaFacts Candidates StrictFacts MinExpandFacts CandidatesFacts SymbolicTest SymbolicTestFacts Signed ReductionFacts ControlFacts2 Main Blocks BlocksFacts ObsFacts OwnerFacts CandidatesTerm
   PartialOwner BlockMath BlockComplete ASeeds ASeedsFacts LogChecks SkipRule SkipRuleFacts Names NamesFacts Perm PermFacts SCC SCCFacts SCCStruct ControlFacts3 SCCTerm FilterSym Main2 StrategyFacts ControlFacts4 SkipRuleFacts2 SCCComplete SCCAttr BlockComplete2 ControlFacts5 Iso SkipSem ControlFacts6.
-From BB Require Import PetriNet PySrcClingo PySrcClingoFacts.
+From BB Require Import PetriNet PySrcClingo PySrcClingoFacts PySrcCollect PySrcCollectFacts.
 
 (* translator tie for the answer-set readers of trappist_core.py (PySrcClingo.v: loops checked statement by statement, the stored polarity read from the text): on a conflict-free model the dict returned by _clingo_model_to_space is the model's space_of_model (INVERTED polarity: a true atom b1_v fixes v to 0) ... *)
 Theorem C09_source_clingo_model_to_space : forall (n : nat) (atoms : list (nat * bool)), NoDup (map fst atoms) -> exists kv : list (nat * bool), py_clingo_model_to_space atoms = Some kv /\ (forall v : nat, v < n -> kv_lookup kv v = nth v (space_of_model n (model_of_atoms atoms)) None).
@@ -25,6 +25,16 @@ Proof. exact py_clingo_model_to_fixed_point_spec. Qed.
 
 Theorem C09_source_clingo_model_conflict_asserts : forall v : nat, py_clingo_model_to_space [(v, true); (v, false)] = None.
 Proof. exact py_clingo_model_to_space_conflict. Qed.
+
+(* 'a solution limit only truncates the list', for the SOURCE TEXT: the collecting half of trappist (guard for a non-positive limit, the save_result closure, the enumerator stopping when it returns False -- PySrcCollect.v, comparisons read from the text) returns the first `limit` answers of the enumeration in order, all of them without a limit *)
+Theorem C09_source_trappist_limit_truncates : forall (A : Type) (limit : option nat) (answers : list A), py_trappist_collect limit answers = truncated limit answers.
+Proof. exact py_trappist_collect_spec. Qed.
+
+Theorem C09_source_reduced_stg_limit_truncates : forall (A : Type) (limit : option nat) (answers : list A), py_reduced_stg_collect limit answers = truncated limit answers.
+Proof. exact py_reduced_stg_collect_spec. Qed.
+
+Theorem C09_source_trappist_limit_length : forall (A : Type) (limit : option nat) (answers : list A), length (py_trappist_collect limit answers) = match limit with | Some l => Nat.min l (length answers) | None => length answers end.
+Proof. exact py_trappist_collect_length. Qed.
 
 (* models = trap spaces inside ensure and not inside an avoided space *)
 Theorem C09_trap_program_min : forall (N : net) (pn : pnet) (ensure : list (option bool)) (avoid : list (list (option bool))) (srcs : list nat) (S : list (option bool)), let n := nvars N in pn_wf n pn -> pn_faithful N pn -> length ensure = n -> (forall a : list (option bool), In a avoid -> length a = n) -> length S = n -> is_model (model_of_space S) (trap_program PMin false pn ensure avoid srcs) = true <-> trap_space N S /\ subspace S ensure = true /\ forallb (fun a : space => negb (subspace S a)) avoid = true.
@@ -66,6 +76,9 @@ Proof. exact space_model_roundtrip. Qed.
 Print Assumptions C09_source_clingo_model_to_space.
 Print Assumptions C09_source_clingo_model_to_fixed_point.
 Print Assumptions C09_source_clingo_model_conflict_asserts.
+Print Assumptions C09_source_trappist_limit_truncates.
+Print Assumptions C09_source_reduced_stg_limit_truncates.
+Print Assumptions C09_source_trappist_limit_length.
 Print Assumptions C09_trap_program_min.
 Print Assumptions C09_trap_program_fix.
 Print Assumptions C09_trap_program_max.
